@@ -4,6 +4,7 @@
    definitions that do not mention the iterator or the comparison loops.
    No proofs in this file. *)
 From Coq Require Import List ZArith Bool.
+From RtoscV Require Osc.OscModel.
 From RtoscV Require Import ArgVal.AvModel.
 Import ListNotations.
 Local Open Scope Z_scope.
@@ -152,15 +153,31 @@ Definition z_of_cmp (c : comparison) : Z := match c with Lt => -1 | Eq => 0 | Gt
 Definition is_eq (c : comparison) : bool := match c with Eq => true | _ => false end.
 
 (* ---- the message a list of values is sent as --------------------------------- *)
+(* The OSC 1.0 encoding (Osc/OscModel.enc_spec, the Spec encoder of the byte
+   codec) of the address, the tags of the written-out values and the payloads
+   of the values that have one.  A top-level array contributes the bare tag
+   'a' (97) and nothing else: its elements are not sent.  Not defined when a
+   top-level string is NULL (rtosc_amessage dereferences it). *)
 Definition vtype (v : value) : Z := match v with Val t _ => t | Arr _ _ => 97 end.
-Fixpoint payloads (vs : list value) : list sval :=
+Definition has_payload (t : Z) : bool :=
+  match OscModel.kind_of t with OscModel.K0 => false | _ => true end.
+Fixpoint payloads_of (vs : list value) : option (list OscModel.payload) :=
   match vs with
-  | [] => []
-  | Val t sv :: r => if has_reserved t then sv :: payloads r else payloads r
-  | Arr _ _ :: r => payloads r
+  | [] => Some []
+  | Val t sv :: r =>
+      if has_payload t then
+        match arg_payload t sv, payloads_of r with
+        | Some p, Some ps => Some (p :: ps)
+        | _, _ => None
+        end
+      else payloads_of r
+  | Arr _ _ :: r => payloads_of r
   end.
-Definition message_of (addr : list Z) (vs : list value) : option (list Z) :=
-  amessage addr (map vtype vs) (payloads vs).
+Definition message_enc (addr : list Z) (vs : list value) : option (list Z) :=
+  match payloads_of vs with
+  | Some ps => Some (OscModel.enc_spec addr (map vtype vs) ps)
+  | None => None
+  end.
 
 (* ---- fuel needed to walk a list of values ------------------------------------- *)
 Fixpoint need_v (v : value) : nat :=
